@@ -68,6 +68,12 @@ def run(tier, seed):
         if name in VEC:
             cases.append(dict(cfg=dict(p=pp, n=8, res=2, ign=0), prog=[["input", i, "priv", i] for i in range(5)] + [["list", 5, [0, 1, 2, 3, 4]], ["permute", 6, name, 5]], ins=[0, 1, 2, 3, 4], kind="vector", pname=name))
         for _ in range(k): cases.append(hash_case(rnd, name, pp, "permute"))
+        # inputs that cancel the first round constants: state cells are exactly 0 at the first mix layer
+        t_ = ps["t"]
+        cases.append(dict(cfg=dict(p=pp, n=8, res=2, ign=0), prog=[["input", i, "priv", i] for i in range(t_)] + [["list", t_, list(range(t_))], ["permute", t_ + 1, name, t_]],
+                          ins=[-int(ps["round_constants"][0][i]) for i in range(t_)], kind="permute", pname=name))
+        cases.append(dict(cfg=dict(p=pp, n=8, res=2, ign=0), prog=[["input", i, "priv", i] for i in range(t_)] + [["list", t_, list(range(t_))], ["permute", t_ + 1, name, t_]],
+                          ins=[(-int(ps["round_constants"][0][i]) if i % 2 else 7 + i) for i in range(t_)], kind="permute", pname=name))
         for _ in range(k + 2): cases.append(hash_case(rnd, name, pp, "poseidon"))
         for i, c in enumerate(cases): c["id"] = i
         try:
@@ -75,6 +81,14 @@ def run(tier, seed):
         except Exception as e:
             viol.append(dict(kind="harness", concrete=False, what="implementation runner failed for %s" % name, detail=str(e)[-1200:])); continue
         counts = collections.defaultdict(set)
+        shapes = collections.defaultdict(dict)
+        for c, r in zip(cases, recs):
+            if r["exn"] is None and c["kind"] in ("permute", "vector") and len(c["ins"]) == ps["t"]:
+                shapes[json.dumps(r["shape"], sort_keys=True, default=str)][tuple(c["ins"])] = c
+        if len(shapes) > 1:
+            (a, ca), (b, cb) = [(k_, list(v_.values())[0]) for k_, v_ in list(shapes.items())[:2]]
+            bad("circuit-depends-on-input-values", "two permutations of %d secret inputs record different constraint systems (the circuit depends on the input values)" % ps["t"],
+                dict(backend=name, cfg=ca["cfg"], prog=ca["prog"], ins=[str(x) for x in ca["ins"]], other_ins=[str(x) for x in cb["ins"]]))
         for c, r in zip(cases, recs):
             stats["traced:" + name] += 1
             cs = dict(cfg=c["cfg"], prog=c["prog"], ins=c["ins"], backend=name)
